@@ -14,12 +14,17 @@ RULE = ("batches of (content, configuration) cases - slot lines where obfuscator
         "in child interpreters started with PYTHONHASHSEED in 0..7 (quick) / 0..47 (thorough), each case in a fresh Cleaner "
         "with every obfuscator's parse_line wrapped to record the application order; the parent compares outputs and orders "
         "across children, checks tag order / one id per output line, and the empty-result behaviour of clean_content, "
-        "ContentProvider.write and clean_file; one evaluation = one case under all seeds; non-trivial = >= 2 obfuscators "
+        "ContentProvider.write and clean_file; for a share of cases the same lines are also collected from a text file (with "
+        "characters that str.splitlines() - but not a text file - treats as line breaks) by a TextFileProvider under a "
+        "HostContext and the stored file is compared with the directly cleaned lines; and groups of 3-8 specs with different "
+        "exemptions / allow-lists are cleaned through ONE Cleaner by 2-8 threads (switch interval 1 us, a yield before every "
+        "line) and compared with each spec cleaned alone; one evaluation = one case under all seeds; non-trivial = >= 2 obfuscators "
         "were applied and a competing keyword is configured; distinct by case hash")
 ASSUMPTIONS = [
     "tags ('~~digits~~') cannot be touched: keywords are never digit-only and contain no '~'; host short names contain a letter",
     "hash-seed dependence is observed through child interpreters; 8 (quick) / 48 (thorough) seeds are swept, not all 2^32",
     "blank input lines are anonymous",
+    "threads share a Cleaner only with obfuscation off (the only situation in which the collector uses its parallel strategy)",
 ]
 REACH = [
     "insights/cleaner/__init__.py::Cleaner.clean_content",
@@ -29,7 +34,8 @@ REACH = [
 ]
 PLAN = {
     "quick": {"shards": 4, "cases": 1200, "timeout_s": 900, "min_evaluations": 4000,
-              "min_counters": {"child_results_compared": 32000, "application_orders_recorded": 32000, "empty_results_checked": 400}},
+              "min_counters": {"child_results_compared": 32000, "application_orders_recorded": 32000, "empty_results_checked": 400,
+                               "concurrent_cleanings_compared": 2000}},
     "thorough": {"shards": 16, "cases": 1600, "timeout_s": 3300, "min_evaluations": 9000,
                  "min_counters": {"child_results_compared": 400000}},
 }
@@ -75,7 +81,13 @@ def gen_case(rng, tier, idx):
             if rng.random() < 0.15:
                 text += " n1.2.3.4." + cfg["fqdn"] + " 10-1-2-3." + (T.domain_of(cfg["fqdn"]) or "x")
             lines.append(text)
-    case = {"cfg": cfg, "lines": lines, "no_obfuscate": rng.sample(["hostname", "ip", "keyword", "mac", "password"], rng.choice([0, 0, 0, 1, 2])),
+    if rng.random() < 0.25 and lines:
+        # characters str.splitlines() treats as line boundaries but a text file does not: a line stays ONE line
+        k = rng.randrange(len(lines))
+        if lines[k]:
+            lines[k] = lines[k] + " tail" + rng.choice(["\x0b", "\x0c", "\x1c", "\x1d", "\x1e", "\x85", "\u2028", "\u2029"]) + "rest " + rng.choice(["lorem", "1.2.3.4", "x"])
+    via_file = rng.random() < 0.4
+    case = {"cfg": cfg, "lines": lines, "via_file": via_file, "no_obfuscate": rng.sample(["hostname", "ip", "keyword", "mac", "password"], rng.choice([0, 0, 0, 1, 2])),
             "no_redact": rng.random() < 0.1}
     if rng.random() < 0.08:
         # nothing at all is active for this spec: every obfuscator opted out, no exclusion pattern, no keyword
@@ -154,6 +166,29 @@ def child_main(path):
             except Exception as ex:
                 res["out"] = "RAISED %r" % (ex,)
                 res["order"] = []
+            # the same content collected from a text file by a provider of a host context: what is stored must be exactly
+            # what cleaning the lines gives
+            if c.get("via_file") and c.get("allowlist") is None and isinstance(res["out"], list):
+                from insights.core.spec_factory import TextFileProvider
+                froot = os.path.join(base, "r%d" % n)
+                os.makedirs(os.path.join(froot, "etc"))
+                with open(os.path.join(froot, "etc", "f.txt"), "w", encoding="utf-8", newline="\n") as fh:
+                    fh.write("".join(l + "\n" for l in c["lines"]))
+
+                class DS2(object):
+                    no_obfuscate = list(c["no_obfuscate"])
+                    no_redact = c["no_redact"]
+                dst2 = os.path.join(base, "fw%d" % n, "f.txt")
+                try:
+                    tp = TextFileProvider("etc/f.txt", root=froot, ctx=HostContext(root=froot), cleaner=T.make_cleaner(c["cfg"]))
+                    tp.ds = DS2()
+                    tp.write(dst2)
+                    with open(dst2, encoding="utf-8", newline="\n") as fh:
+                        res["stored"] = fh.read().split("\n")
+                except ContentException:
+                    res["stored"] = "content-exception"
+                except Exception as ex:
+                    res["stored"] = "other %r" % (ex,)
             # empty-result behaviour
             if isinstance(res["out"], list) and not any(l for l in res["out"]):
                 class DS(object):
@@ -257,7 +292,7 @@ def run_shard(ctx):
                     if (b, a) in before:
                         ctx.violation("obfuscator-order-not-fixed-across-cases", {"this_case": r["order"], "other_case": before[(b, a)], "pair": [a, b]})
                     before.setdefault((a, b), r["order"])
-            for k in ("write", "write_file_exists", "clean_file_exists", "clean_file_size"):
+            for k in ("write", "write_file_exists", "clean_file_exists", "clean_file_size", "stored"):
                 if r.get(k) != ref.get(k):
                     ctx.violation("empty-result-behaviour-differs-between-hash-seeds", {"key": k, "values": [ref.get(k), r.get(k)]})
         out = ref["out"]
@@ -269,6 +304,16 @@ def run_shard(ctx):
                                                                                         "allowlist": c.get("allowlist"), "allowlist_after": ref.get("allowlist_after")})
             elif ref.get("allowlist_after") != c.get("allowlist"):
                 ctx.violation("cleaning-changed-its-configuration", {"allowlist": c.get("allowlist"), "allowlist_after": ref.get("allowlist_after")})
+        if "stored" in ref and isinstance(out, list):
+            uncleaned_ = c["no_redact"] and set(c["no_obfuscate"]) >= set(["hostname", "ip", "ipv6", "keyword", "mac", "password"])
+            if not uncleaned_ and c["lines"]:
+                ctx.count("file_collections_compared_with_direct_cleaning")
+                exp_stored = list(out) if any(l for l in out) else "content-exception"
+                if ref["stored"] != exp_stored:
+                    ctx.violation("stored-file-content-differs-from-cleaning-its-lines", {
+                        "lines": c["lines"][:4], "cleaned_lines": exp_stored[:4] if isinstance(exp_stored, list) else exp_stored,
+                        "stored": ref["stored"][:6] if isinstance(ref["stored"], list) else ref["stored"],
+                        "counts": [len(c["lines"]), len(exp_stored) if isinstance(exp_stored, list) else None, len(ref["stored"]) if isinstance(ref["stored"], list) else None]})
         if isinstance(out, str):
             ctx.violation("clean-content-raised", {"error": out[:400]})
         else:
@@ -303,10 +348,86 @@ def run_shard(ctx):
         if nt and len(ctx.samples) < 3:
             ctx.sample({"case": c, "output_seed0": out[:6] if isinstance(out, list) else out, "order": ref["order"]})
     ctx.current = None
+    # ---- one cleaner shared by several threads (the parallel run strategy) ----
+    if ctx.plan.get("cases"):
+        for _ in range(60 if ctx.tier == "quick" else 250):
+            c = gen_concurrent(ctx.rng)
+            ctx.current = c
+            run_concurrent(c, ctx)
+            ctx.note_case(c, True)
+        ctx.current = None
+
+
+def gen_concurrent(rng):
+    """one Cleaner shared by the worker threads of the 'parallel' run strategy (allowed when obfuscation is off): every job
+    is a spec with its own content and its own exemptions / allow-list"""
+    cfg = T.gen_config(rng, force_obfuscate=False)
+    if not cfg.get("patterns"):
+        cfg["patterns"] = {"plain": ["XDROPX", "drop.me"]}
+    if not cfg["keywords"]:
+        cfg["keywords"] = ["ZEBRA", "uniq"]
+    jobs = []
+    base = rng.randint(0, 10 ** 6)
+    for j in range(rng.randint(3, 8)):
+        lines = [T.render(T.gen_line(rng, cfg, "~~%d~%d~%d~~" % (base, j, i), kinds=["drop", "drop", "kw", "pw", "fill", "fill"])) for i in range(rng.randint(3, 25))]
+        job = {"lines": lines, "no_redact": rng.random() < 0.4, "no_obfuscate": rng.sample(["keyword", "password"], rng.choice([0, 0, 1, 2])),
+               "allowlist": None}
+        if rng.random() < 0.3:
+            job["allowlist"] = dict((f, rng.choice([1, 2, 10000])) for f in rng.sample(["~", "lorem", "e", "1", "a", "tcp", " "], rng.randint(1, 3)))
+        jobs.append(job)
+    return {"kind": "concurrent", "cfg": cfg, "jobs": jobs, "workers": rng.choice([2, 4, 8]), "repeat": rng.randint(2, 4)}
+
+
+def run_concurrent(spec, ctx):
+    """same content + same configuration = same output, also while other threads clean other specs with the same Cleaner"""
+    import time
+    from concurrent.futures import ThreadPoolExecutor
+    from insights.cleaner import pattern as pattern_mod
+
+    def clean(cleaner, job):
+        kw = {}
+        if job["allowlist"] is not None:
+            kw["allowlist"] = dict(job["allowlist"])
+        try:
+            return cleaner.clean_content(list(job["lines"]), no_obfuscate=list(job["no_obfuscate"]), no_redact=job["no_redact"], **kw)
+        except Exception as ex:
+            return "RAISED %r" % (ex,)
+    # reference: every job alone, in a fresh cleaner
+    expected = [clean(T.make_cleaner(spec["cfg"]), job) for job in spec["jobs"]]
+    shared = T.make_cleaner(spec["cfg"])
+    todo = [(n, job) for _ in range(spec["repeat"]) for n, job in enumerate(spec["jobs"])]
+    old = sys.getswitchinterval()
+    orig_parse = pattern_mod.Pattern.parse_line
+
+    def yielding(self, line, **kw):
+        time.sleep(0)           # a real suspension point: between two lines of one spec
+        return orig_parse(self, line, **kw)
+    pattern_mod.Pattern.parse_line = yielding
+    sys.setswitchinterval(1e-6)
+    try:
+        with ThreadPoolExecutor(max_workers=spec["workers"]) as pool:
+            results = list(pool.map(lambda t: (t[0], clean(shared, t[1])), todo))
+    finally:
+        sys.setswitchinterval(old)
+        pattern_mod.Pattern.parse_line = orig_parse
+    ctx.count("concurrent_groups")
+    ctx.count("concurrent_cleanings_compared", len(results))
+    for n, got in results:
+        if got != expected[n]:
+            diff = None
+            if isinstance(got, list) and isinstance(expected[n], list):
+                diff = {"only_alone": [l for l in expected[n] if l not in got][:3], "only_concurrent": [l for l in got if l not in expected[n]][:3]}
+            ctx.violation("output-differs-when-other-threads-use-the-same-cleaner", {"job": dict(spec["jobs"][n], lines=spec["jobs"][n]["lines"][:3]),
+                                                                                      "difference": diff or [str(expected[n])[:200], str(got)[:200]],
+                                                                                      "workers": spec["workers"]})
+            break
+    return True
 
 
 def run_case(spec, ctx):
     """replay of a single case: runs the sweep for just this case"""
+    if spec.get("kind") == "concurrent":
+        return run_concurrent(spec, ctx)
     saved = ctx.plan.get("cases")
     ctx.plan["cases"] = 0
     global directed
